@@ -172,6 +172,67 @@ def killed_while_saving(ctx, proto, drv, el):
         ctx.traces_validated += 1
 
 
+def generations(ctx, proto, drv, el):
+    """the file over several lives of the collector: (1) a cache file of an earlier run (an hour old) is loaded, nothing is
+    announced, the cache is saved and loaded again - the templates are still there; (2) the templates are redefined, the
+    cache is saved to the SAME path, and that second save is cut short at several lengths: what loads from the path
+    afterwards is empty or the redefinition, never the definition the second save was replacing"""
+    import re as _re
+    import shutil
+    import time as _time
+    name = codec.P[proto]["name"]
+    d = ctx.subdir("c11gen_" + proto)
+    F, F2 = os.path.join(d, "cache.json"), os.path.join(d, "cache2.json")
+    exps = flowjobs.exporters(ctx.seed)
+    keys = [(exps[k % 3], 256 + k) for k in range(6)]
+    ann1 = [{"exp": e, "buf": c04.tpl_msg(proto, tid, 1)} for e, tid in keys]
+    ann2 = [{"exp": e, "buf": c04.tpl_msg(proto, tid, 2)} for e, tid in keys]
+    probes = [{"exp": e, "buf": c04.data_msg(proto, tid)} for e, tid in keys]
+    recs = lambda x: [[(f["i"], tuple(f["v"]["o"])) for f in rec] for rec in x["recs"]]
+
+    def run(job, tag):
+        r = flowjobs.run_jobs(ctx, drv, codec.P[proto]["jobs"], [job], env={"VERIF_ELEMENTS_DIR": el}, tag="c11g_%s_%s" % (proto, tag))[0]
+        if r.get("skipped") or "killed" in r:
+            raise vlib.Infra("generations stage: driver failed (%s)" % (r.get("killed") or "skipped"))
+        return r
+    a = run({"msgs": ann1 + probes, "dump_to": F}, "a")
+    if a.get("dump") != "ok" or [recs(x) for x in a["res"][len(ann1):]] != [c04.expected_recs(1)] * len(keys):
+        raise vlib.Infra("generations stage: baseline run did not decode / dump as expected")
+    # (1) an hour later, two restarts without a re-announcement
+    aged = _re.sub(rb'"Timestamp":\d+', b'"Timestamp":%d' % (int(_time.time()) - 3600), open(F, "rb").read())
+    with open(F, "wb") as fh:
+        fh.write(aged)
+    run({"cache_file": F, "msgs": probes[:1], "dump_to": F2}, "b")
+    c = run({"cache_file": F2, "msgs": probes}, "c")
+    ctx.count([proto, "two-restarts-without-reannouncement"])
+    bad = [k for k, x in zip(keys, c["res"]) if not (x["st"] == "ok" and recs(x) == c04.expected_recs(1))]
+    if bad:
+        ctx.violation("%s: a cache file of an earlier run was loaded, nothing was announced, the cache was saved and loaded again: %d of %d "
+                      "templates are gone (exporter %s id %d: %s)" % (name, len(bad), len(keys), bad[0][0], bad[0][1],
+                                                                        next(x["st"] for k, x in zip(keys, c["res"]) if k == bad[0])),
+                      {"proto": proto, "lost": [list(map(str, k)) for k in bad]}, key=proto + ":generations-lost")
+    else:
+        ctx.traces_validated += 1
+    # (2) redefinition, second save to the same path, cut short
+    run({"cache_file": F, "msgs": ann2 + probes[:1], "dump_to": F}, "d")
+    whole = open(F, "rb").read()
+    cuts = sorted({0, 1, len(whole) // 7, len(whole) // 3, len(whole) // 2, len(whole) - 40, len(whole) - 2, len(whole) - 1})
+    for cut in cuts:
+        with open(F, "wb") as fh:
+            fh.write(whole[:cut])
+        e = run({"cache_file": F, "msgs": probes}, "e%d" % cut)
+        ctx.count([proto, "second-save-cut", cut])
+        stale = [k for k, x in zip(keys, e["res"]) if x["st"] == "ok" and recs(x) == c04.expected_recs(1)]
+        if stale:
+            ctx.violation("%s: templates were redefined and the cache saved again to the same path; that save cut short after %d of %d octets, "
+                          "the path loads back with the definition it was REPLACING (exporter %s id %d decoded with the old template)"
+                          % (name, cut, len(whole), stale[0][0], stale[0][1]), {"proto": proto, "cut": cut}, key=proto + ":generations-stale")
+            break
+    else:
+        ctx.traces_validated += 1
+    shutil.rmtree(d, ignore_errors=True)
+
+
 def large_cache(ctx, proto, drv, el):
     """a collector that has learnt ten thousand templates (a cache file of about 2 MB): saved, loaded, same answers"""
     name = codec.P[proto]["name"]
@@ -396,4 +457,5 @@ def check(ctx):
                     break
         killed_while_saving(ctx, proto, drv, el)
         large_cache(ctx, proto, drv, el)
+        generations(ctx, proto, drv, el)
         ctx.sample({"proto": proto, "file_octets": len(raw), "loads": len(loads), "example_mutation": json.dumps(mutate_doc(doc, "nullshard", ctx.rng))[:300]})
